@@ -113,7 +113,10 @@ def known_if_model_agrees(fid, oracle):
     """pattern of a known finding: the oracle fails on the implementation AND on the model's own output for the same
     case (the finding is a property of the algorithm as modelled, not a deviation of the code from the model)."""
     def km(case, io, mo):
-        return fid if (oracle(case, io) and oracle(case, mo)) else None
+        fi, fm = oracle(case, io), oracle(case, mo)
+        # every failure observed on the implementation must be a failure of the model on the same case, message for
+        # message: a different clause / different values failing is not the recorded finding
+        return fid if (fi and fm and set(fi) <= set(fm)) else None
     return km
 
 
@@ -123,52 +126,52 @@ def mk(prop, gens, nq, nt, proj, oracle, theorems, **kw):
 
 
 PROPS.update({
-    "C01": mk("C01", WELL + [("tdx", lambda r: GB.case_td(r, exact=True), 1)], 900, 20000,
+    "C01": mk("C01", WELL + [("tdx", lambda r: GB.case_td(r, exact=True), 1)], 3000, 30000,
               proj_lines(("op ", "out ", "abort ", "done", "skipped", "fs ", "cl ", "known ", "bad-op")), OB.c01, [],
               proj_name="C01: returned outputs, abort kinds, resource contents, reference builds",
               known_match=known_if_model_agrees("K5", OB.c01)),
-    "C02": mk("C02", [("td", GB.case_td, 2), ("tdx", lambda r: (GB.case_td(r, exact=True), dict(exact=True)), 2), ("pan", GB.case_panic, 1)], 900, 20000,
+    "C02": mk("C02", [("td", GB.case_td, 2), ("tdx", lambda r: (GB.case_td(r, exact=True), dict(exact=True)), 2), ("pan", GB.case_panic, 1)], 3000, 30000,
               proj_lines(("op ", "ev execute_start", "ev check_", "out ", "abort ", "cl exec", "bad-op")),
               lambda c, io: OB.c02(c, io, exact=c.meta.get("exact", False)), [],
               proj_name="C02: execute_start and check events with verdicts per session"),
-    "C03": mk("C03", [("bu", GB.case_bu, 3), ("bud", GB.case_bu_dense, 2), ("k1", GB.case_partial_td_then_bu, 1)], 900, 20000,
+    "C03": mk("C03", [("bu", GB.case_bu, 3), ("bud", GB.case_bu_dense, 2), ("k1", GB.case_partial_td_then_bu, 1)], 3000, 30000,
               proj_lines(("op ", "ev execute_", "ev schedule_task", "out ", "abort ", "done", "fs ", "cl ", "known ", "bad-op")), OB.c03, [],
               proj_name="C03: executions, scheduling, outputs, contents", known_match=known_if_model_agrees("K1", OB.c03)),
-    "C04": mk("C04", [("bu", GB.case_bu, 1), ("bud", GB.case_bu_dense, 1)], 900, 20000,
+    "C04": mk("C04", [("bu", GB.case_bu, 1), ("bud", GB.case_bu_dense, 1)], 3000, 30000,
               proj_lines(("op ", "ev execute_", "ev schedule_", "ev check_task_re", "out ", "abort ", "done", "bad-op")), OB.c04, [],
               proj_name="C04: order of execute_start/end, schedule and scheduling-check events", known_match=known_if_model_agrees("K7", OB.c04)),
-    "C05": mk("C05", [("hid", GB.case_hidden, 3), ("ero", GB.case_erosion, 1), ("td", GB.case_td, 1)], 900, 20000,
+    "C05": mk("C05", [("hid", GB.case_hidden, 3), ("ero", GB.case_erosion, 1), ("td", GB.case_td, 1)], 3000, 30000,
               proj_lines(("op ", "out ", "abort ", "done", "skipped", "fs ", "st ", "bad-op")),
               lambda c, io: OB.dump_invariants(c, io, "C05") + OB.abort_content(c, io), [],
               proj_name="C05: abort kinds, contents at abort, store dump",
               known_match=known_if_model_agrees("K4", lambda c, io: OB.dump_invariants(c, io, "C05"))),
-    "C06": mk("C06", [("ovl", GB.case_overlap, 3), ("td", GB.case_td, 1), ("bu", GB.case_bu, 1)], 900, 20000,
+    "C06": mk("C06", [("ovl", GB.case_overlap, 3), ("td", GB.case_td, 1), ("bu", GB.case_bu, 1)], 3000, 30000,
               proj_lines(("op ", "out ", "abort ", "done", "skipped", "fs ", "st ", "bad-op")),
               lambda c, io: OB.dump_invariants(c, io, "C06") + OB.abort_content(c, io) + (
                   [f"well-formed program aborted: {l}" for l in io if l == "abort overlap"] if c.meta.get("stream") in ("td", "bu") else []), [],
               proj_name="C06: abort kinds, contents at abort, store dump"),
-    "C07": mk("C07", [("cyc", GB.case_cycle, 1)], 900, 20000,
+    "C07": mk("C07", [("cyc", GB.case_cycle, 1)], 3000, 30000,
               proj_lines(("op ", "out ", "abort ", "done", "skipped", "tl ", "st ", "bad-op")), OB.c07, [],
               proj_name="C07: abort kinds, task-side log, store dump"),
-    "C08": mk("C08", [("td", GB.case_td, 2), ("bu", GB.case_bu, 1), ("bud", GB.case_bu_dense, 1), ("pan", GB.case_panic, 1), ("k2", GB.case_multichecker, 1)], 900, 20000,
+    "C08": mk("C08", [("td", GB.case_td, 2), ("bu", GB.case_bu, 1), ("bud", GB.case_bu_dense, 1), ("pan", GB.case_panic, 1), ("k2", GB.case_multichecker, 1)], 3000, 30000,
               proj_lines(("op ", "st ", "abort ", "bad-op")), OB.c08, [],
               proj_name="C08: store dump after every session", known_match=known_if_model_agrees("K2", OB.c08)),
-    "C09": mk("C09", WELL + [("fail", GB.case_failing_checker, 1)], 900, 20000,
+    "C09": mk("C09", WELL + [("fail", GB.case_failing_checker, 1)], 3000, 30000,
               proj_lines(("op ", "ev read_end", "ev write_end", "ev require_end", "ev check_", "abort ", "bad-op")), OB.c09, [],
               proj_name="C09: stamps in *_end events and verdicts of every check event"),
-    "C16": mk("C16", WELL + [("bud", GB.case_bu_dense, 2), ("hid", GB.case_hidden, 1), ("fail", GB.case_failing_checker, 1)], 900, 20000,
+    "C16": mk("C16", WELL + [("bud", GB.case_bu_dense, 2), ("hid", GB.case_hidden, 1), ("fail", GB.case_failing_checker, 1)], 3000, 30000,
               proj_lines(ALL_BUILD), lambda c, io: [], [], proj_name="C16: complete canonical event stream and outputs",
               replays=dict(quick=2, thorough=7)),
-    "C17": mk("C17", WELL + [("pan", GB.case_panic, 1), ("fail", GB.case_failing_checker, 1)], 900, 20000,
+    "C17": mk("C17", WELL + [("pan", GB.case_panic, 1), ("fail", GB.case_failing_checker, 1)], 3000, 30000,
               proj_lines(("op ", "ev ", "tl ", "et ", "composite", "out ", "abort ", "done", "bad-op")), OB.c17, [],
               proj_name="C17: complete event stream, task-side log, EventTracker contents"),
-    "C18": mk("C18", [("fail", GB.case_failing_checker, 1)], 900, 20000,
+    "C18": mk("C18", [("fail", GB.case_failing_checker, 1)], 3000, 30000,
               proj_lines(("op ", "errors ", "ev execute_start", "ev schedule_task", "out ", "abort ", "done", "bad-op")), OB.c18, [],
               proj_name="C18: dependency_check_errors, executions, scheduling, outputs"),
-    "C19": mk("C19", [("pan", GB.case_panic, 1)], 900, 20000,
+    "C19": mk("C19", [("pan", GB.case_panic, 1)], 3000, 30000,
               proj_lines(("op ", "out ", "abort ", "done", "skipped", "fs ", "cl ", "bad-op")), OB.c19, [],
               proj_name="C19: outcomes of all sessions after an abort", known_match=known_if_model_agrees("K6", OB.c19)),
-    "C20": mk("C20", [("rol", GB.case_roles, 2), ("td", GB.case_td, 1), ("bu", GB.case_bu, 1), ("bud", GB.case_bu_dense, 1), ("pan", GB.case_panic, 1)], 900, 20000,
+    "C20": mk("C20", [("rol", GB.case_roles, 2), ("td", GB.case_td, 1), ("bu", GB.case_bu, 1), ("bud", GB.case_bu_dense, 1), ("pan", GB.case_panic, 1)], 3000, 30000,
               proj_lines(("op ", "out ", "abort ", "done", "skipped", "cl ", "bad-op")),
               lambda c, io: OB.c20(c, io) + ([f"well-formed program aborted: {l}" for l in io if l in ("abort overlap", "abort hidden", "abort cyclic")]
                                              if c.meta.get("stream") in ("td", "bu") else []), [],
